@@ -50,6 +50,7 @@ type c01obs struct {
 	PageCount int        `json:"pageCount"`
 	Pages     [][]string `json:"pages"`
 	Box       []float64  `json:"box"`
+	Shared    string     `json:"shared,omitempty"`
 }
 
 func c01Observe(path string, npages int) c01obs {
@@ -78,6 +79,34 @@ func c01Observe(path string, npages int) c01obs {
 		return o
 	}
 	defer rd.Close()
+	// all pages again through this ONE reader (shared fonts, CMaps and streams are then decoded repeatedly from
+	// its object cache), and the first page once more at the end
+	order := []int{}
+	for i := 0; i < n; i++ {
+		order = append(order, i)
+	}
+	if n > 1 {
+		order = append(order, 0)
+	}
+	for _, i := range order {
+		pg, err := rd.GetPage(i)
+		if err != nil {
+			o.Err = fmt.Sprintf("GetPage(%d) on a shared reader: %v", i, err)
+			return o
+		}
+		frs, err := rd.ExtractTextFragments(pg)
+		if err != nil {
+			o.Err = fmt.Sprintf("ExtractTextFragments(page %d) on a shared reader: %v", i+1, err)
+			return o
+		}
+		texts := []string{}
+		for _, f := range frs {
+			texts = append(texts, f.Text)
+		}
+		if i < len(o.Pages) && !reflect.DeepEqual(texts, o.Pages[i]) {
+			o.Shared = fmt.Sprintf("page %d read through a reader that has already served other pages gives %q, a fresh reader gives %q", i+1, texts, o.Pages[i])
+		}
+	}
 	if n > 0 {
 		pg, err := rd.GetPage(n - 1)
 		if err != nil {
@@ -113,6 +142,9 @@ func c01Diff(c *lCase, o c01obs) (string, string) {
 			}
 			return "text", fmt.Sprintf("page %d text %q, document says %q", i+1, got, want)
 		}
+	}
+	if o.Shared != "" {
+		return "text-shared-reader", o.Shared
 	}
 	if len(o.Box) == 4 {
 		for i := range o.Box {
